@@ -47,6 +47,10 @@ pub mod server;
 mod stringpack;
 mod syntax;
 pub mod unit_fmt;
+#[cfg(locustdb_verif)]
+pub mod verif;
+#[cfg(locustdb_verif)]
+pub mod verif_api;
 
 #[cfg(feature = "python")]
 pub mod python;
